@@ -9,6 +9,11 @@
 //	S <L> <R> <fi> <chunks> | like D           synthetic chunk lists: correspondence only
 //	T <n|u|g> <text>        | <result>         Read / ReadUnified / ReadGitPatch on arbitrary text
 //	G <k> {<junk> <fi> <chunks>}*k | <text> <result>   git-style wrappers around Unified renderings
+//	Z <unix sec> <nsec> <zone offset sec> | same|zero|lost
+//	    a real time.Time (instant + fixed zone) put into FileInfo.LeftTime/RightTime, written by
+//	    Unified and Context with the default TimeFormat and read back by ReadUnified/ReadGitPatch:
+//	    "same" = both stamps come back as the same instant at microsecond precision with the same
+//	    zone offset, "zero" = the time IsZero (not written, comes back zero), "lost" = anything else
 //
 // L, R, junk: hex lists of lines.  fi: "-" (nil) or <left>,<right>,<ltime>,<rtime> (hex; a time
 // is its text in mdiff.TimeFormat, "-" = zero).  chunks: "." or ls:le:rs:re:edits;... with
@@ -26,6 +31,7 @@ import (
 	"strconv"
 	"strings"
 	"time"
+	"unicode"
 
 	"github.com/creachadair/mds/mdiff"
 	"github.com/creachadair/mds/slice"
@@ -200,6 +206,8 @@ func exec(in string) (out string) {
 		case "g":
 			return encPatches(mdiff.ReadGitPatch(strings.NewReader(text)))
 		}
+	case "Z":
+		return stampRoundTrip(atoi64(f[1]), atoi64(f[2]), atoi(f[3]))
 	case "V", "W": // validation of the reference appliers against GNU diff / GNU patch: the
 		// outside tool's answer is part of the input (an oracle), nothing of mdiff runs here
 		return "ok"
@@ -215,6 +223,57 @@ func exec(in string) (out string) {
 		return tr.Hex(b.String()) + " " + encPatches(mdiff.ReadGitPatch(strings.NewReader(b.String())))
 	}
 	return "?"
+}
+
+func atoi64(s string) int64 {
+	n, err := strconv.ParseInt(s, 10, 64)
+	if err != nil {
+		panic(err)
+	}
+	return n
+}
+
+// stampRoundTrip: does a real timestamp survive Unified -> ReadUnified / ReadGitPatch (and is the
+// header Context writes the same stamp text)?
+func stampRoundTrip(sec, nsec int64, off int) string {
+	t := time.Unix(sec, nsec).In(time.FixedZone("zone", off))
+	cs := []*mdiff.Chunk{{LStart: 1, LEnd: 2, RStart: 1, REnd: 3, Edits: []mdiff.Edit{{Op: slice.OpReplace, X: []string{"x"}, Y: []string{"y", "z"}}}}}
+	fi := &mdiff.FileInfo{Left: "l", Right: "r", LeftTime: t, RightTime: t}
+	text := format(mdiff.Unified, cs, fi)
+	p, err := mdiff.ReadUnified(strings.NewReader(text))
+	if err != nil || p.FileInfo == nil {
+		return "lost"
+	}
+	ps, err := mdiff.ReadGitPatch(strings.NewReader("diff --git l r\n" + text))
+	if err != nil || len(ps) != 1 || ps[0].FileInfo == nil {
+		return "lost"
+	}
+	same := func(want, got time.Time) string {
+		if want.IsZero() {
+			if got.IsZero() {
+				return "zero"
+			}
+			return "lost"
+		}
+		_, o1 := want.Zone()
+		_, o2 := got.Zone()
+		if got.Equal(want.Truncate(time.Microsecond)) && o1 == o2 {
+			return "same"
+		}
+		return "lost"
+	}
+	res := same(t, p.FileInfo.LeftTime)
+	for _, got := range []time.Time{p.FileInfo.RightTime, ps[0].FileInfo.LeftTime, ps[0].FileInfo.RightTime} {
+		if same(t, got) != res {
+			return "lost"
+		}
+	}
+	// Context writes the same stamp text in its header
+	ctext := format(mdiff.Context, cs, fi)
+	if !t.IsZero() && !strings.HasPrefix(ctext, "*** l\t"+t.Format(mdiff.TimeFormat)+"\n") {
+		return "lost"
+	}
+	return res
 }
 
 func encPatches(ps []*mdiff.Patch, err error) string {
@@ -256,9 +315,12 @@ func chunksOf(l, r []string, ctx int) []*mdiff.Chunk {
 }
 
 var hostile = []string{"a", "b", "", "-x", "--- q", "+y", "@@ z", "< w", "> v", " s", "diff d", "---", "\\ No newline at end of file",
-	"***************", "*** 1 ****", "--- 1 ----", "1a1", "@@ -1 +1 @@", "+++ b", "- -- x ----", "! x", "  ", "\t", "2,3c4", "\xff\x00", "d", "@"}
+	"***************", "*** 1 ****", "--- 1 ----", "1a1", "@@ -1 +1 @@", "+++ b", "- -- x ----", "! x", "  ", "\t", "2,3c4", "\xff\x00", "d", "@",
+	// line contents with a carriage return (a CRLF text split at "\n"), with the Unicode spaces strings.Fields
+	// knows (NEL, NBSP, EM SPACE, IDEOGRAPHIC SPACE), truncated UTF-8, form feed / vertical tab
+	"x\r", "\r", "a\u00a0b", "\u0085", "@@\u2003-1 +1 @@", "\u3000", "\xc2", "\xe2\x80", "\f\v", "-- x ----", "** 1,2 ****"}
 
-var names = []string{"", "a", "b", "left.txt", "dir/file name.go", "x,y:z;w", "--- odd", "é"}
+var names = []string{"", "a", "b", "left.txt", "dir/file name.go", "x,y:z;w", "--- odd", "é", "old ****", "new ----", "1,2 ****", "n\r", "sp\u00a0ce", "@@ -1 +1 @@"}
 var stamps = []string{"", "", "2024-01-02 03:04:05 +0000", "1999-12-28 23:59:59.5 -0700", "2006-01-02 15:04:05.999999 +0530", "2031-07-09 00:00:00.000001 -0100"}
 
 func randFI(r *tr.Rand) *mdiff.FileInfo {
@@ -307,7 +369,7 @@ func emitDiff(g *tr.G, l, r []string, ctx int, fi *mdiff.FileInfo, tags ...strin
 	}
 	for _, c := range cs {
 		if c.REnd == c.RStart {
-			tags = append(tags, "empty-right-range")
+			tags = append(tags, "empty-right-range(F6 trigger under the strict reading)")
 			break
 		}
 	}
@@ -426,7 +488,12 @@ func gnuValidation(g *tr.G) {
 			os.WriteFile(lf, []byte(text(l)), 0o644)
 			os.WriteFile(rf, []byte(text(r)), 0o644)
 			for _, m := range modes {
-				out, _ := osexec.Command(diffBin, append(slices.Clone(m[1:]), lf, rf)...).Output()
+				args := slices.Clone(m[1:])
+				if m[0] != "n" && (len(l)+len(r))%2 == 0 {
+					// keep the file header, with names that look like range lines
+					args = append(args, "--label", "1,2 ****", "--label", "x ----")
+				}
+				out, _ := osexec.Command(diffBin, append(args, lf, rf)...).Output()
 				// drop the file header lines of -U/-C output (they carry temp names and times)
 				lines := strings.SplitAfter(string(out), "\n")
 				for len(lines) > 0 && (strings.HasPrefix(lines[0], "--- "+dir) || strings.HasPrefix(lines[0], "+++ "+dir) || strings.HasPrefix(lines[0], "*** "+dir)) {
@@ -563,7 +630,10 @@ func main() {
 				for m := 1 + g.R.Intn(2); m > 0; m-- {
 					text = mutate(g.R, text)
 				}
-				if strings.ContainsAny(text, "\x85\xa0") || greyStamp(text) { // outside the model, see greyStamp
+				if strings.IndexFunc(text, func(r rune) bool { return r > 127 && unicode.IsSpace(r) }) >= 0 || greyStamp(text) {
+			// outside the model: strings.Fields on non-ASCII white space (FormatLines.fields knows the
+			// ASCII ones; the hunk headers the formatters write are ASCII), and see greyStamp
+			g.W.Count("damaged-text-skipped(non-ASCII space or non-canonical stamp)", 1)
 					continue
 				}
 				g.Emit("T "+kind+" "+tr.Hex(text), true, "damaged")
